@@ -35,8 +35,10 @@ class Ctx:
             self.nontrivial.add(str(nontrivial_key))
         if not ok:
             wid = digest([self.desc.to_json() if self.desc is not None else None, clause, witness])
-            if not any(v['witness_id'] == wid for v in self.violations) and len(self.violations) < 20:
-                wclass = f'{self.desc.label if self.desc is not None else ""}|{witness[0] if isinstance(witness, (list, tuple)) and witness else ""}'
+            wclass = f'{self.desc.label if self.desc is not None else ""}|{witness[0] if isinstance(witness, (list, tuple)) and witness else ""}'
+            per_class = sum(1 for v in self.violations if v['clause'] == clause and v['witness_class'] == wclass)
+            # at most 3 witnesses are kept per (clause, witness class); classes themselves are never dropped
+            if not any(v['witness_id'] == wid for v in self.violations) and per_class < 3:
                 self.violations.append(dict(clause=clause, witness_id=wid, witness_class=wclass, witness=witness,
                                             detail=str(detail)[:1500],
                                             desc=self.desc.to_json() if self.desc is not None else None,
